@@ -17,7 +17,8 @@ MUST_RAISE = [
 ]
 FRINGE = ['empty-value-list', 'empty-text', 'empty-payload', 'single-row', 'width-1', 'origin-ref-0', 'name-255', 'ident-255',
           'text-20000', 'units-255', 'many-values-300', 'set-name-255', 'header-id-65', 'sul-id-60', 'empty-ident',
-          'copy-number-255', 'dtime-1900', 'dtime-2155', 'nan-float-attr', 'inf-float-attr', 'record-length-20']
+          'copy-number-255', 'dtime-1900', 'dtime-2155', 'nan-float-attr', 'inf-float-attr', 'record-length-20',
+          'frame-same-channel-name-twice']
 META = {
     'level': 'exploration',
     'rule': ('one evaluation = one invalid or fringe specification (one class of the catalogue injected into an otherwise random '
@@ -243,6 +244,19 @@ def inject(sp, c, r):
     if c == 'many-values-300':
         add({'op': 'calibration_coefficient', 'name': 'CC-INJ', 'attrs': {'coefficients': [float(j) for j in range(300)]}})
         return 'coefficients'
+    if c == 'frame-same-channel-name-twice':
+        # two different channels with one name in one frame (the data are looked up by channel name)
+        if len(fch) < 2:
+            ops.insert(frames[0], gen.channel_op('EXTRA-CH', '<f4', (n,), fill={'kind': 'pos', 'tag': 41}))
+            _shift_refs(ops, frames[0])
+            frames = [i for i, o in enumerate(ops) if o['op'] == 'frame']
+            ops[frames[0]]['attrs']['channels']['$tuple'].append({'$ref': frames[0] - 1})
+            fch = [x['$ref'] for x in ops[frames[0]]['attrs']['channels']['$tuple']]
+        ops[fch[-1]]['name'] = ops[fch[0]]['name']
+        if r.random() < 0.5:
+            ops[fch[-1]].pop('dataset_name', None)
+            ops[fch[0]].pop('dataset_name', None)
+        return 'frame channels'
     if c in ('nan-float-attr', 'inf-float-attr'):
         add({'op': 'well_reference_point', 'name': 'W-INJ', 'attrs': {'magnetic_declination': {'$float': 'nan' if c[0] == 'n' else '-inf'}}})
         return 'wrp'
